@@ -39,7 +39,7 @@ add("not-swallows-error", "evaluate.go",
     "\t\t\tresult, _ := evaluate(node.Operand, datum, opt...)\n\t\t\treturn !result, nil", ["C03", "C01"])
 add("not-true-with-error", "evaluate.go",
     "\t\t\tif err != nil {\n\t\t\t\treturn false, err\n\t\t\t}\n\t\t\treturn !result, nil",
-    "\t\t\treturn !result, err", ["C09", "C03"])
+    "\t\t\treturn !result, err", ["C09"])
 add("isempty-guard-removed", "evaluate.go",
     "\tcase reflect.Array, reflect.Map, reflect.Slice, reflect.String:\n\t\treturn value.Len() == 0, nil\n\tdefault:\n\t\treturn false, fmt.Errorf(\"Cannot perform is empty/is not empty operations on type %s for selector: %q\", kind, matcher.Selector)\n\t}",
     "\tdefault:\n\t\t_ = kind\n\t\treturn value.Len() == 0, nil\n\t}", ["C09"])
